@@ -230,6 +230,8 @@ pub fn run_c17(cfg: &Cfg) -> Report {
             }
             let mut o = if t.rng.chance(1, 3) { ShapeOpts::full() } else { ShapeOpts::small() };
             o.big_enums = i % 50 == 0;
+            // the alternative name pool is not in alphabetical order (JSON objects are)
+            o.alt_names = i % 2 == 0;
             let depth = t.rng.range(0, o.max_depth as usize) as u32;
             let shape = restrict_shape(&gen_shape(&mut t.rng, depth, &o));
             let mut val = {
@@ -306,7 +308,7 @@ pub fn run_c17(cfg: &Cfg) -> Report {
         one!(Vec<u8>); one!(Vec<String>); one!(Vec<Vec<u16>>); one!(std::collections::BTreeSet<u16>); one!(std::collections::BTreeMap<String, u16>);
         one!(Option<u8>); one!(Option<String>); one!(Result<u16, String>);
         one!(std::ops::Range<u16>); one!(std::ops::RangeInclusive<i32>);
-        one!(crate::corpus::SNew); one!(crate::corpus::STup); one!(crate::corpus::SEmptyTup); one!(crate::corpus::SNamed); one!(crate::corpus::SEmptyNamed);
+        one!(crate::corpus::SNew); one!(crate::corpus::STup); one!(crate::corpus::SEmptyTup); one!(crate::corpus::SNamed); one!(crate::corpus::SEmptyNamed); one!(crate::corpus::SUnsorted);
         one!(crate::corpus::SBasic); one!(crate::corpus::SData); one!(crate::corpus::SNested); one!(crate::corpus::SStd); one!(crate::corpus::SArrays); one!(crate::corpus::SGen<u16>);
     });
     rep.stats.merge(s);
